@@ -833,8 +833,10 @@ type ecEngine struct {
 	mkIface     map[*types.Package][]*ssa.MakeInterface
 	views       [][2]types.Type // (view interface type, interface type of the value it was taken from)
 	factsMemo   map[*ssa.BasicBlock][]ecFact
+	factsBusy   map[*ssa.BasicBlock]bool
 	inventoryd  bool
 	inlineDepth int
+	phiDepth    int
 }
 
 var ecEngineCache = map[*core.Ctx]*ecEngine{}
@@ -847,7 +849,7 @@ func ecNewEngine(r *ecRoles) *ecEngine {
 		fieldW: map[*types.Var][]core.WriteSite{}, structW: map[*types.Named][]core.WriteSite{},
 		fieldMemo: map[*types.Var]ecSet{}, fieldBusy: map[*types.Var]bool{},
 		predFns: map[string]*ssa.Function{}, predMemo: map[string][2]bool{},
-		mkIface: map[*types.Package][]*ssa.MakeInterface{}, factsMemo: map[*ssa.BasicBlock][]ecFact{}}
+		mkIface: map[*types.Package][]*ssa.MakeInterface{}, factsMemo: map[*ssa.BasicBlock][]ecFact{}, factsBusy: map[*ssa.BasicBlock]bool{}}
 	ecEngineCache[r.c] = e
 	return e
 }
@@ -966,6 +968,28 @@ func (e *ecEngine) isPredicate(f *ssa.Function) bool {
 
 func (e *ecEngine) decompose(cond ssa.Value, pos bool, out *[]ecFact) {
 	switch x := cond.(type) {
+	case *ssa.Phi:
+		// a short-circuit `a && b` / `a || b` evaluated as a value (the guard of a tagless `switch { case a && b: }`,
+		// `ok := a && b; if ok`): φ[p: false, q: b] is true only when control came through q and b held there, so the
+		// facts of the edge q→φ and of b hold; dually for a φ that is false when every other edge is the constant true.
+		if b, ok := x.Type().Underlying().(*types.Basic); ok && b.Info()&types.IsBoolean != 0 && e.phiDepth < 3 {
+			cand, n := -1, 0
+			for i, ed := range x.Edges {
+				if k, ok := ed.(*ssa.Const); ok && k.Value != nil && k.Value.Kind() == constant.Bool && constant.BoolVal(k.Value) != pos {
+					continue
+				}
+				n++
+				cand = i
+			}
+			if n == 1 && cand < len(x.Block().Preds) {
+				e.phiDepth++
+				*out = append(*out, e.factsAt(ecPoint{B: x.Block().Preds[cand], Succ: x.Block()})...)
+				if _, isConst := x.Edges[cand].(*ssa.Const); !isConst {
+					e.decompose(x.Edges[cand], pos, out)
+				}
+				e.phiDepth--
+			}
+		}
 	case *ssa.UnOp:
 		if x.Op == token.NOT {
 			e.decompose(x.X, !pos, out)
@@ -1049,11 +1073,16 @@ func (e *ecEngine) edgeFacts(p, s *ssa.BasicBlock, out *[]ecFact) {
 func (e *ecEngine) factsAt(pt ecPoint) []ecFact {
 	facts, ok := e.factsMemo[pt.B]
 	if !ok {
+		if e.factsBusy[pt.B] {
+			return nil // a φ-condition inside a loop asks for the facts of its own region: cut the cycle (fewer facts)
+		}
+		e.factsBusy[pt.B] = true
 		for s := pt.B; s != nil; s = s.Idom() {
 			if len(s.Preds) == 1 {
 				e.edgeFacts(s.Preds[0], s, &facts)
 			}
 		}
+		delete(e.factsBusy, pt.B)
 		e.factsMemo[pt.B] = facts
 	}
 	if pt.Succ != nil {
@@ -1899,7 +1928,7 @@ func (e *ecEngine) handlingOf(v ssa.Value) ecHandling {
 				}
 				h.NilTests = append(h.NilTests, nonNil)
 				if len(nonNil.Preds) != 1 || !ecRegionClosed(nonNil) {
-					if h.OpenRegion == nil && !ecOpenRegionPassesUp(nonNil, v) {
+					if h.OpenRegion == nil && !ecOpenRegionPassesUp(nonNil, v) && !e.regionJoinsOnlyAtFailingReturns(nonNil, v) {
 						h.OpenRegion = nonNil
 					}
 				}
@@ -1967,6 +1996,130 @@ func ecOpenRegionPassesUp(start *ssa.BasicBlock, v ssa.Value) bool {
 		}
 	}
 	return n > 0
+}
+
+// ecReturnOnly: the block does nothing but merge values and return (the single exit of a function whose results
+// are assigned on the way: `return n, err` with φ-nodes for n and err).
+func ecReturnOnly(b *ssa.BasicBlock) *ssa.Return {
+	for i, in := range b.Instrs {
+		switch x := in.(type) {
+		case *ssa.Phi, *ssa.DebugRef:
+		case *ssa.Return:
+			if i == len(b.Instrs)-1 {
+				return x
+			}
+			return nil
+		default:
+			return nil
+		}
+	}
+	return nil
+}
+
+// ecResultOnEdge: the value result i of rt has when its block is entered through predecessor number edge
+// (edge < 0: the result as written).
+func ecResultOnEdge(rt *ssa.Return, i, edge int) ssa.Value {
+	rv := rt.Results[i]
+	if edge >= 0 {
+		if phi, ok := rv.(*ssa.Phi); ok && phi.Block() == rt.Block() && edge < len(phi.Edges) {
+			return phi.Edges[edge]
+		}
+	}
+	return rv
+}
+
+func ecDefinitelyNonNil(s ecSet) bool {
+	if len(s) == 0 {
+		return false
+	}
+	for el := range s {
+		switch el.Kind {
+		case ecEOF, ecFATAL, ecETF, ecPLAIN, ecVAR:
+		case ecFOREIGN, ecPARAM, ecIFACE:
+			if !el.NonNil {
+				return false
+			}
+		default:
+			return false
+		}
+	}
+	return true
+}
+
+// regionJoinsOnlyAtFailingReturns: the failure branch starting at `start` (entered only through the non-nil edge
+// of a test of v) leaves the blocks it dominates only into return-only blocks (a single-exit function: the
+// branch assigns the results and falls into the common `return`), it cannot get back to the call that produced v,
+// and on every edge from the branch into such a block every error result is known to be non-nil. The failure
+// then ends the call with an error exactly as an early `return` inside the branch would.
+func (e *ecEngine) regionJoinsOnlyAtFailingReturns(start *ssa.BasicBlock, v ssa.Value) bool {
+	if len(start.Preds) != 1 {
+		return false
+	}
+	reach := core.ReachableBlocks(start, nil)
+	if def, ok := v.(ssa.Instruction); ok && reach[def.Block()] {
+		return false
+	}
+	idxs := ecErrResultIdx(start.Parent().Signature)
+	if len(idxs) == 0 {
+		return false
+	}
+	joins := 0
+	for _, b := range start.Parent().Blocks { // deterministic order
+		if !reach[b] || start.Dominates(b) {
+			continue
+		}
+		rt := ecReturnOnly(b)
+		if rt == nil {
+			return false
+		}
+		for pi, p := range b.Preds {
+			if !reach[p] || !start.Dominates(p) {
+				continue
+			}
+			joins++
+			for _, i := range idxs {
+				if i >= len(rt.Results) {
+					return false
+				}
+				if !ecDefinitelyNonNil(e.classAt(ecResultOnEdge(rt, i, pi), ecPoint{B: p, Succ: b})) {
+					return false
+				}
+			}
+		}
+	}
+	return joins > 0
+}
+
+// ecFailRet is a return a failure of v ends in: Edge < 0 when the return's block is dominated by the failure
+// edge of v, otherwise the number of the predecessor through which the failure branch falls into a return-only
+// block (results are then the φ-operands of that edge, see ecResultOnEdge; facts are those of Pt).
+type ecFailRet struct {
+	Rt   *ssa.Return
+	Pt   ecPoint
+	Edge int
+}
+
+// failureReturns lists the returns of fn reached while `cause` holds for the dominating facts: returns inside the
+// failure branch and, for single-exit functions, the edges from the failure branch into the common return block.
+func (e *ecEngine) failureReturns(fn *ssa.Function, cause func([]ecFact) bool) []ecFailRet {
+	var out []ecFailRet
+	for _, rt := range ecReturns(fn) {
+		if cause(e.factsAt(ecPointOf(rt))) {
+			out = append(out, ecFailRet{Rt: rt, Pt: ecPointOf(rt), Edge: -1})
+			continue
+		}
+		b := rt.Block()
+		if len(b.Preds) < 2 || ecReturnOnly(b) == nil {
+			continue
+		}
+		for pi, p := range b.Preds {
+			pt := ecPoint{B: p, Succ: b}
+			if cause(e.factsAt(pt)) {
+				out = append(out, ecFailRet{Rt: rt, Pt: pt, Edge: pi})
+			}
+		}
+	}
+	return out
 }
 
 // ecFailureCause: at pt the value v is known to be non-nil and not known to be io.EOF.
